@@ -95,6 +95,11 @@ def run(ctx, rep):
     triangle_collapse(prog, rep)
     underline_in_box(prog, rep)
     line_box(prog, rep)
+    try:
+        polyline_transparent(prog, rep)
+    except Exception as e:
+        import traceback; traceback.print_exc()
+        rep.fail("R02.10", "engine", "transparent polyline analysis crashed: %r" % (e,), status="undecided")
     from rules import axis
     axis.run_for(ctx.program("default"), rep, 'R02.6', ['src/primitives/rectangle/styled.rs', 'src/primitives/triangle/styled.rs', 'src/primitives/polyline/styled.rs', 'src/primitives/line/styled.rs', 'src/text', 'src/mono_font', 'src/image'], 'bounding boxes and drawn rectangles are built per axis')
 
@@ -607,3 +612,53 @@ def line_box(prog, rep):
                 bad.append("the %s corner covers only %d of the 4 end points of the outer parallels" % (op, len(pts)))
     rep.check(not bad and len(summs) >= 1, "R02.9", "line:styled-box", "Line::styled_bounding_box must be with_corners(min, max) over the four end points of extents(stroke_width, None): %s" % "; ".join(sorted(set(bad))[:2]),
               at=f.span, fn=f.path, status="refuted" if any("covers only" in b for b in bad) else "undecided")
+
+
+def polyline_transparent(prog, rep):
+    """R02.10 a polyline with a stroke colour but stroke width 0 is completely transparent (PrimitiveStyle::is_transparent)
+    and its styled box is empty — it must draw nothing.  Polyline::draw_styled reads the raw `style.stroke_color` and
+    draws `points()`, whose geometry does not depend on the width, so every path of it that touches the target must have
+    excluded stroke_width == 0 (a `match` arm, a comparison) or take its colour from effective_stroke_color()."""
+    from mirq.paths import Paths, Unsupported, show_fact
+    PS = "embedded_graphics::primitives::primitive_style::PrimitiveStyle"
+    fs = [f for f in prog.fns.values() if f.body and f.name == "draw_styled" and f.kind == "assoc_fn" and "polyline::styled" in f.id]
+    if len(fs) != 1:
+        rep.fail("R02.10", "Polyline::draw_styled", "anchor lost (%d)" % len(fs), status="undecided")
+        return
+    f = fs[0]
+    sw = field_index(prog, PS, "stroke_width")
+    sc = field_index(prog, PS, "stroke_color")
+    style = ("param", 2, "style")
+    width = ("field", style, sw)
+    try:
+        summs = Paths(prog, inline=lambda g: prog.is_new(g), loops="once").of(f)
+    except Unsupported as e:
+        rep.fail("R02.10", "Polyline::draw_styled", "cannot summarise: %s" % e, status="undecided", at=f.span, fn=f.path)
+        return
+    bad, n = [], 0
+    for sm in summs:
+        touches = [e for e in sm.effects if e[0] == "call" and any(isinstance(x, tuple) and x and x[0] == "param" and x[1] == 3 for x in walk(e[1]))]
+        if not touches:
+            continue
+        n += 1
+        raw_colour = any(isinstance(x, tuple) and x and strip_refs(x) == ("field", style, sc) for e in touches for x in walk(e[1]))
+        if not raw_colour:
+            continue
+        nonzero = False
+        for fc in sm.facts:
+            a = strip_refs(fc[1]) if len(fc) > 1 and isinstance(fc[1], tuple) else None
+            b = strip_refs(fc[2]) if len(fc) > 2 and isinstance(fc[2], tuple) and fc[2] and isinstance(fc[2][0], str) else None
+            if fc[0] == "switch" and a == width and fc[2][0] == "not" and 0 in fc[2][1:]:
+                nonzero = True
+            if fc[0] == "eq" and ((a == width and b is not None and b[0] == "const" and b[1] not in (0, False)) or (b == width and a is not None and a[0] == "const" and a[1] not in (0, False))):
+                nonzero = True
+            if fc[0] == "ne" and ((a == width and b == ("const", 0)) or (b == width and a == ("const", 0))):
+                nonzero = True
+            if fc[0] == "lt" and a is not None and a[0] == "const" and isinstance(a[1], int) and a[1] >= 0 and b == width:
+                nonzero = True
+            if fc[0] == "le" and a is not None and a[0] == "const" and isinstance(a[1], int) and a[1] >= 1 and b == width:
+                nonzero = True
+        if not nonzero:
+            bad.append("a path draws with the raw stroke colour without having excluded stroke_width == 0 [%s]" % "; ".join(show_fact(x)[:60] for x in sm.facts[:3]))
+    rep.check(not bad and n >= 1, "R02.10", "Polyline::draw_styled", "a polyline of stroke width 0 is transparent and must draw nothing: %s" % ("; ".join(sorted(set(bad))[:2]) or "no drawing path found"),
+              at=f.span, fn=f.path, detail={"drawing_paths": n})
